@@ -192,7 +192,7 @@ func genC10(t *rapid.T) CaseC10 {
 		c.Conds = genCondsFrom(t, 1, 2, cands)
 	}
 	c.NewKind = rapid.SampledFrom([]string{"scalar", "scalar", "map", "Map", "str", "str-bool", "str-num", "existing"}).Draw(t, "newkind")
-	c.Sep = rapid.SampledFrom([]string{":", ":", "|", "::", "=>", "§"}).Draw(t, "sep")
+	c.Sep = rapid.SampledFrom([]string{":", ":", "|", "::", "=>", "§", "\t", " | "}).Draw(t, "sep")
 	c.Unrelated = genUnrelated(t)
 	if c.NewKind == "existing" {
 		// the new value equals what an entry under the key already holds
@@ -469,8 +469,8 @@ func checkC10on(c CaseC10, subject map[string]interface{}, sep, path string, sp 
 	info.Class("src:" + c.Src)
 	info.Class("new value form:" + c.NewKind)
 
-	if strings.HasPrefix(c.NewKind, "str") {
-		// the "key:value[:type]" string form must behave exactly like the single-entry map form
+	if strings.HasPrefix(c.NewKind, "str") && !strings.Contains(c.Key, sep) && !strings.Contains(c.Key, strings.TrimSpace(sep)+" ") {
+		// the "key:value[:type]" string form must behave exactly like the single-entry map form (for a key the separator does not split)
 		var val interface{}
 		var spec string
 		switch c.NewKind {
